@@ -15,6 +15,7 @@ mod gen_keys;
 mod seq;
 mod kbiso;
 mod sweep;
+mod tablecheck;
 use gen_keys::{key_index, ALL_KEYS};
 
 pub fn guard<T>(f: impl FnOnce() -> T) -> Option<T> {
@@ -517,16 +518,20 @@ fn replay(args: &[String]) -> String {
             let bits: u32 = args[1].parse().unwrap();
             let mut d = EventDecoder::new(Rec, mode_by_name(&args[2]));
             let press = |d: &mut EventDecoder<Rec>, k: KeyCode| { d.process_keyevent(KeyEvent::new(k, KeyState::Down)); };
+            if bits & 16 == 0 { press(&mut d, KeyCode::NumpadLock); }
+            if bits & 32 != 0 { press(&mut d, KeyCode::CapsLock); }
             if bits & 1 != 0 { press(&mut d, KeyCode::LShift); }
             if bits & 2 != 0 { press(&mut d, KeyCode::RShift); }
             if bits & 4 != 0 { press(&mut d, KeyCode::LControl); }
             if bits & 8 != 0 { press(&mut d, KeyCode::RControl); }
-            if bits & 16 == 0 { press(&mut d, KeyCode::NumpadLock); }
-            if bits & 32 != 0 { press(&mut d, KeyCode::CapsLock); }
             if bits & 64 != 0 { press(&mut d, KeyCode::LAlt); }
             if bits & 128 != 0 { press(&mut d, KeyCode::RAltGr); }
             if bits & 256 != 0 { press(&mut d, KeyCode::RControl2); }
             let before = state_bits(&format!("{:?}", d));
+            let want_mode = if args[2] == "Ignore" { 1 } else { 0 };
+            if before != Some(bits | (want_mode << 9)) {
+                write!(out, "UNREACHED start={:?} wanted=({}, {}) ", before.map(|b| (b & 511, b >> 9)), bits, want_mode).unwrap();
+            }
             let r = if args[3] == "mode" {
                 d.set_ctrl_handling(mode_by_name(&args[4]));
                 "-".to_string()
@@ -788,6 +793,7 @@ fn main() {
         ("replay", Some("kbd")) => kbiso::replay(&args[3]),
         ("replay", _) => replay(&args[2..]),
         ("kbiso", _) => kbiso::main(&args[2..]),
+        ("tablecheck", _) => tablecheck::main(&args[2..]),
         ("findpanic", _) => {
             let mut o = findpanic_ps2(3_000_000);
             o.push_str(&findpanic_scan("set1", ScancodeSet1::new(), 100_000));
